@@ -8,10 +8,14 @@
 package prune
 
 import (
+	"bytes"
 	"context"
+	"encoding/binary"
+	"encoding/gob"
 	"errors"
 	"fmt"
 	"os"
+	"path/filepath"
 	"reflect"
 	"runtime"
 	"sort"
@@ -65,7 +69,15 @@ type consts struct {
 	PruneBatch int  `json:"PruneBatch"`
 	L2PerPrune int  `json:"L2PerPrune"`
 	MinAge     bool `json:"MinAge"`
+	// Base > 0: block numbers are absolute and the world starts from the image of an earlier life —
+	// chain 0..Base pruned up to Base — so that the dozen blocks of a behaviour lie across a boundary
+	// of the REAL aggregated-bloom-filter window (W, which must be core.NumBlocksPerFilter)
+	Base int `json:"Base"`
+	W    int `json:"W"`
 }
+
+// lo: the lowest block number anything of the world can still exist for (header carve-out of the image)
+func (c consts) lo() int { return max(0, c.Base-int(core.BlockHashLag)-2) }
 
 func fixedClasses() {
 	classesOnce.Do(func() {
@@ -352,12 +364,147 @@ type world struct {
 	noStateByHash bool
 
 	crashedInPrune bool
+	// lazyIndex: the monitors must not touch the event index (see evaluate)
+	lazyIndex bool
+}
+
+// ------------------------------------------------------------------ base images (Base > 0)
+// The image of an earlier life of the node: genesis (the two fixed contracts), Base-1 empty blocks,
+// the content block Base — stored through the real Finalise — and then pruned up to Base by the real
+// PruneUpto.  What is left is small; it is built once per run (kept in the run's scratch directory
+// for the engine's other processes) and copied into every world.
+
+const (
+	imageSeed = 7
+	imageTime = 1_600_000_000 // far older than any minimum age; block n of the image carries imageTime+n
+)
+
+type image struct {
+	kvs  []faultkv.KV
+	took time.Duration
+}
+
+var (
+	imgMu  sync.Mutex
+	images = map[string]*image{}
+)
+
+func imageBlock(base int) chainkit.BlockSpec {
+	spec := blockSpec(imageSeed, base, 1, false, true)
+	spec.Timestamp = imageTime + uint64(base)
+	return spec
+}
+
+func fillerSpec(n int) chainkit.BlockSpec {
+	fixedClasses()
+	d := chainkit.EmptyDiff()
+	classes := map[felt.Felt]core.ClassDefinition{}
+	if n == 0 {
+		d.DeclaredV0Classes = append(d.DeclaredV0Classes, &classA, &classB)
+		classes[classA] = classADef
+		classes[classB] = classBDef
+		d.DeployedContracts[contractAddr] = &classA
+		d.DeployedContracts[otherAddr] = &classB
+	}
+	return chainkit.BlockSpec{Version: "0.13.2", Timestamp: imageTime + uint64(n), Diff: d, Classes: classes}
+}
+
+// fastAppend stores an EMPTY block (no transactions) through the real Finalise: one state
+// computation instead of chainkit's Simulate + SanityCheckNewHeight + Store.
+func fastAppend(n *chainkit.Node, spec chainkit.BlockSpec) error {
+	parent, oldRoot := &felt.Zero, &felt.Zero
+	var number uint64
+	if head, err := n.BC.HeadsHeader(); err == nil {
+		parent, number, oldRoot = head.Hash, head.Number+1, head.GlobalStateRoot
+	}
+	g := func(a, b uint64) *core.GasPrice {
+		return &core.GasPrice{PriceInWei: chainkit.F(a), PriceInFri: chainkit.F(b)}
+	}
+	block := &core.Block{
+		Header: &core.Header{
+			ParentHash: parent, Number: number, SequencerAddress: chainkit.F(0x5e9), Timestamp: spec.Timestamp,
+			ProtocolVersion: spec.Version, EventsBloom: core.EventsBloom(nil), L1GasPriceETH: chainkit.F(10 + number),
+			L1GasPriceSTRK: chainkit.F(20 + number), L1DataGasPrice: g(30+number, 40+number), L2GasPrice: g(50+number, 60+number),
+		},
+		Transactions: []core.Transaction{}, Receipts: []*core.TransactionReceipt{},
+	}
+	return n.BC.Finalise(block, &core.StateUpdate{StateDiff: spec.Diff, OldRoot: oldRoot}, spec.Classes, nil)
+}
+
+func getImage(base int, newState bool) (*image, error) {
+	imgMu.Lock()
+	defer imgMu.Unlock()
+	name := fmt.Sprintf("prune-image-%d-%v.gob", base, newState)
+	if im, ok := images[name]; ok {
+		return im, nil
+	}
+	path := filepath.Join(vh.Scratch(), name)
+	if f, err := os.Open(path); err == nil {
+		im := &image{}
+		err = gob.NewDecoder(f).Decode(&im.kvs)
+		f.Close()
+		if err == nil && len(im.kvs) > 0 {
+			images[name] = im
+			return im, nil
+		}
+	}
+	t := time.Now()
+	mem := memory.New()
+	n := chainkit.NewNode(mem, newState)
+	for i := 0; i < base; i++ {
+		if err := fastAppend(n, fillerSpec(i)); err != nil {
+			return nil, fmt.Errorf("image filler %d: %w", i, err)
+		}
+	}
+	if _, err := n.Append(imageBlock(base)); err != nil {
+		return nil, fmt.Errorf("image block %d: %w", base, err)
+	}
+	if _, _, err := pruner.PruneUpto(context.Background(), mem, uint64(base), bigBatch); err != nil {
+		return nil, fmt.Errorf("%w: PruneUpto(%d) of a freshly built chain: %v", errOnRealCode, base, err)
+	}
+	kvs, err := faultkv.Dump(mem)
+	if err != nil {
+		return nil, err
+	}
+	im := &image{kvs: kvs, took: time.Since(t)}
+	if f, err := os.Create(path + ".tmp"); err == nil {
+		if gob.NewEncoder(f).Encode(kvs) == nil && f.Close() == nil {
+			_ = os.Rename(path+".tmp", path)
+		}
+	}
+	images[name] = im
+	return im, nil
+}
+
+func load(store db.KeyValueStore, kvs []faultkv.KV) error {
+	b := store.NewBatch()
+	for _, kv := range kvs {
+		if err := b.Put(kv.K, kv.V); err != nil {
+			return err
+		}
+	}
+	return b.Write()
+}
+
+// twinFilter: the twin (the oracle of block, transaction and state reads; its event index is never
+// asked) starts from the pruned image as well; so that it does not depend on the initialiser under
+// test it gets an empty running window at its head.
+func twinFilter(database db.KeyValueStore) (*core.RunningEventFilter, error) {
+	h, err := core.GetChainHeight(database)
+	if err != nil {
+		return nil, err
+	}
+	f := core.NewAggregatedFilter((h + 1) - (h+1)%core.NumBlocksPerFilter)
+	return core.NewRunningEventFilterHot(database, &f, h+1), nil
 }
 
 func newWorld(c consts, seed int64, newState bool, backend string) (*world, error) {
 	w := &world{c: c, seed: seed, newState: newState, backend: backend,
 		built: map[bk]*chainkit.Built{}, byHash: map[felt.Felt]bk{}, ver: map[int]int{}, young: map[int]bool{}}
-	for n := 0; n <= c.MaxH+2; n++ {
+	if c.W != 0 && uint64(c.W) != core.NumBlocksPerFilter {
+		return nil, fmt.Errorf("prune engine: the behaviours were generated for windows of %d blocks, the code has %d", c.W, core.NumBlocksPerFilter)
+	}
+	for n := c.Base; n <= c.MaxH+2; n++ {
 		w.ver[n] = 1
 	}
 	if backend == "pebble" {
@@ -374,12 +521,35 @@ func newWorld(c consts, seed int64, newState bool, backend string) (*world, erro
 	} else {
 		w.raw = memory.New()
 	}
-	w.twin = chainkit.NewNode(memory.New(), newState)
+	first := 0
+	if c.Base > 0 {
+		im, err := getImage(c.Base, newState)
+		if err != nil {
+			return nil, err
+		}
+		tm := memory.New()
+		if err := load(tm, im.kvs); err != nil {
+			return nil, err
+		}
+		if err := load(w.raw, im.kvs); err != nil {
+			return nil, err
+		}
+		w.twin = chainkit.NewNode(tm, newState, blockchain.WithRunningEventFilterInitializer(twinFilter))
+		tb, err := w.twin.BC.BlockByNumber(uint64(c.Base))
+		if err != nil {
+			return nil, fmt.Errorf("prune engine: image block %d: %w", c.Base, err)
+		}
+		w.note(bk{c.Base, 1}, &chainkit.Built{Block: tb})
+		w.ver[c.Base] = 2
+		first = c.Base + 1
+	} else {
+		w.twin = chainkit.NewNode(memory.New(), newState)
+	}
 	w.fk = faultkv.Wrap(poisonStore{w.raw})
 	if err := w.bootNode(); err != nil {
 		return nil, err
 	}
-	for n := 0; n <= c.InitH; n++ {
+	for n := first; n <= c.InitH; n++ {
 		if err := w.newBlock(false); err != nil {
 			return nil, fmt.Errorf("initial chain block %d: %w", n, err)
 		}
@@ -421,7 +591,7 @@ func (w *world) calibrate() error {
 		w.batch = bigBatch
 		return nil
 	}
-	if w.c.InitH < 4 {
+	if w.c.InitH-w.c.Base < 4 {
 		return errors.New("prune engine: cannot calibrate the batch threshold on fewer than 5 blocks")
 	}
 	kvs, err := faultkv.Dump(w.raw)
@@ -451,8 +621,8 @@ func (w *world) calibrate() error {
 		return err
 	}
 	fk := faultkv.Wrap(cp)
-	if _, _, err := pruner.PruneUpto(context.Background(), fk, 4, 1); err != nil {
-		return fmt.Errorf("%w: PruneUpto(4) of a freshly built chain: %v", errOnRealCode, err)
+	if _, _, err := pruner.PruneUpto(context.Background(), fk, uint64(w.c.Base+4), 1); err != nil {
+		return fmt.Errorf("%w: PruneUpto(%d) of a freshly built chain: %v", errOnRealCode, w.c.Base+4, err)
 	}
 	// trace: batch(S0) batch(S1) batch(S2) batch(S3 without number-by-hash) batch(0) batch(range)
 	var sizes []int
@@ -462,8 +632,13 @@ func (w *world) calibrate() error {
 			sizes = append(sizes, n)
 		}
 	}
-	// block 0 is a little smaller (nothing replaced yet), the last one lacks the number-by-hash delete
-	if len(sizes) != 6 || sizes[1] != sizes[2] || sizes[1] == 0 || sizes[0] < sizes[1]*3/4 || sizes[0] > sizes[1] {
+	// block 0 is a little smaller (nothing replaced yet), the last one lacks the number-by-hash delete;
+	// on an image the first batch also carries the delete of the carve-out mapping of block Base-1
+	okFirst := sizes != nil && sizes[0] >= sizes[min(1, len(sizes)-1)]*3/4 && sizes[0] <= sizes[min(1, len(sizes)-1)]
+	if w.c.Base > 0 {
+		okFirst = sizes != nil && sizes[0] >= sizes[min(1, len(sizes)-1)] && sizes[0] < sizes[min(1, len(sizes)-1)]*5/4
+	}
+	if len(sizes) != 6 || sizes[1] != sizes[2] || sizes[1] == 0 || !okFirst {
 		return fmt.Errorf("prune engine: blocks are not uniform, cannot calibrate: %v", fk.Trace)
 	}
 	w.batch = sizes[1]*(w.c.PruneBatch-1) + sizes[1]/3
@@ -684,13 +859,47 @@ type post struct {
 	Txl    []int `json:"txl"`
 	Hist   []int `json:"hist"`
 	Oldest int   `json:"oldest"`
+	// first blocks of the persisted aggregated bloom filter windows; a row whose key is not an
+	// aligned window [from, from+W-1] appears as -from-1
+	Win []int `json:"win"`
+}
+
+// windows lists the persisted aggregated bloom filters of a database.
+func windows(r db.KeyValueReader) []int {
+	out := []int{}
+	prefix := db.AggregatedBloomFilters.Key()
+	it, err := r.NewIterator(prefix, true)
+	if err != nil {
+		return []int{-1 << 40}
+	}
+	defer it.Close()
+	for ok := it.First(); ok; ok = it.Next() {
+		k := it.Key()
+		if !bytes.HasPrefix(k, prefix) {
+			continue
+		}
+		k = k[len(prefix):]
+		if len(k) != 16 {
+			out = append(out, -1<<41)
+			continue
+		}
+		from, to := binary.BigEndian.Uint64(k[:8]), binary.BigEndian.Uint64(k[8:])
+		if from%core.NumBlocksPerFilter != 0 || to != from+core.NumBlocksPerFilter-1 {
+			out = append(out, -int(from)-1)
+			continue
+		}
+		out = append(out, int(from))
+	}
+	sort.Ints(out)
+	return out
 }
 
 // project reads the durable state from the surviving store in the specification's terms.
 // A number appears negated-minus-one when a family holds it only partially.
 func (w *world) project() post {
 	r := w.raw
-	p := post{Height: -1, L1: -1, Hdr: []int{}, Com: []int{}, Su: []int{}, Txs: []int{}, H2n: []int{}, Txl: []int{}, Hist: []int{}}
+	p := post{Height: -1, L1: -1, Hdr: []int{}, Com: []int{}, Su: []int{}, Txs: []int{}, H2n: []int{}, Txl: []int{}, Hist: []int{},
+		Win: windows(r)}
 	if h, err := core.GetChainHeight(r); err == nil {
 		p.Height = int(h)
 	}
@@ -700,7 +909,7 @@ func (w *world) project() post {
 	if o, err := pruner.OldestRetainedBlock(r); err == nil {
 		p.Oldest = int(o)
 	}
-	for n := 0; n <= w.c.MaxH; n++ {
+	for n := w.c.lo(); n <= w.c.MaxH; n++ {
 		real := uint64(n)
 		if _, err := core.GetBlockHeaderByNumber(r, real); err == nil {
 			p.Hdr = append(p.Hdr, n)
@@ -717,6 +926,12 @@ func (w *world) project() post {
 		// the block of this number on the expected chain (the twin never prunes)
 		tb, err := w.twin.BC.BlockByNumber(real)
 		if err != nil {
+			// below the image's first block only the header (carve-out) is left on the twin
+			if th, herr := w.twin.BC.BlockHeaderByNumber(real); herr == nil {
+				if num, err := core.GetBlockHeaderNumberByHash(r, th.Hash); err == nil && num == real {
+					p.H2n = append(p.H2n, n)
+				}
+			}
 			continue
 		}
 		if num, err := core.GetBlockHeaderNumberByHash(r, tb.Hash); err == nil && num == real {
@@ -779,7 +994,7 @@ func (w *world) memFloor() int {
 	if err != nil {
 		return 0
 	}
-	for n := uint64(0); n <= h; n++ {
+	for n := uint64(w.c.lo()); n <= h; n++ {
 		_, closer, err := w.node.BC.StateAtBlockNumber(n)
 		if err == nil {
 			_ = closer()
@@ -1020,8 +1235,111 @@ func (w *world) query(bc *blockchain.Blockchain, from, to uint64) ([]bk, error) 
 	return out, nil
 }
 
+// naive: the events of the blocks [from, to] as a scan of the twin's receipts yields them.
+type evRef struct {
+	Block, Tx, Ev int
+	Key           string
+}
+
+func (w *world) naive(from, to uint64) []evRef {
+	out := []evRef{}
+	for n := from; n <= to; n++ {
+		b, err := w.twin.BC.BlockByNumber(n)
+		if err != nil {
+			continue
+		}
+		for ti, rc := range b.Receipts {
+			for ei, e := range rc.Events {
+				out = append(out, evRef{int(n), ti, ei, e.Keys[0].String()})
+			}
+		}
+	}
+	return out
+}
+
+// scan: an UNFILTERED event query over [from, to] in chunks (continuation tokens), as references.
+func (w *world) scan(bc *blockchain.Blockchain, from, to uint64, chunk uint64) ([]evRef, error) {
+	out := []evRef{}
+	var tok *blockchain.ContinuationToken
+	for page := 0; page < 1000; page++ {
+		f, err := bc.EventFilter(nil, nil, noPreConf)
+		if err != nil {
+			return nil, err
+		}
+		_ = f.SetRangeEndBlockByNumber(blockchain.EventFilterFrom, from)
+		_ = f.SetRangeEndBlockByNumber(blockchain.EventFilterTo, to)
+		evs, next, err := f.Events(tok, chunk)
+		_ = f.Close()
+		if err != nil {
+			return nil, err
+		}
+		for _, e := range evs {
+			k := ""
+			if len(e.Keys) > 0 {
+				k = e.Keys[0].String()
+			}
+			out = append(out, evRef{int(e.BlockNumber), int(e.TransactionIndex), int(e.EventIndex), k})
+		}
+		if next.IsEmpty() {
+			return out, nil
+		}
+		n := next
+		tok = &n
+	}
+	return nil, errors.New("event query does not terminate (1000 pages)")
+}
+
+// eventMonitors: the retained range answers exactly (filtered by every block's own key, and
+// unfiltered in one piece and in chunks, over the whole range and over every range that starts or
+// ends at the oldest retained block's neighbours); a range starting below is reported as pruned.
+func (w *world) eventMonitors(bc *blockchain.Blockchain, oldest, th uint64, add adder) {
+	found, qerr := w.query(bc, oldest, th)
+	if qerr != nil {
+		add("events:error", fmt.Sprintf("filtered queries over the retained range [%d, %d]: %v", oldest, th, qerr))
+	} else {
+		want := []bk{}
+		for n := oldest; n <= th; n++ {
+			h, _ := w.twin.BC.BlockHeaderHashByNumber(n)
+			if id := w.byHash[*h]; len(w.built[id].Block.Transactions) > 0 {
+				want = append(want, id)
+			}
+		}
+		if !reflect.DeepEqual(append([]bk{}, found...), want) {
+			add("events:mismatch", fmt.Sprintf("got %v want %v", found, want))
+		}
+	}
+	type rng struct{ from, to uint64 }
+	ranges := []rng{{oldest, th}, {oldest, oldest}, {oldest, min(oldest+1, th)}, {min(oldest+1, th), th}, {th, th}}
+	for i, r := range ranges {
+		for _, chunk := range []uint64{100000, 1, 3} {
+			if i > 0 && chunk == 3 {
+				continue
+			}
+			got, err := w.scan(bc, r.from, r.to, chunk)
+			if err != nil {
+				add("events:scan-error", fmt.Sprintf("unfiltered query over the retained blocks [%d, %d] (oldest retained %d, head %d, chunks of %d): %v", r.from, r.to, oldest, th, chunk, err))
+				break
+			}
+			if want := w.naive(r.from, r.to); !reflect.DeepEqual(got, want) {
+				add("events:scan-mismatch", fmt.Sprintf("unfiltered query over [%d, %d] (oldest retained %d, chunks of %d): got %v, a scan of the receipts gives %v", r.from, r.to, oldest, chunk, got, want))
+				break
+			}
+		}
+	}
+	if oldest > 0 {
+		if _, err := w.query(bc, oldest-1, th); !errors.Is(err, pruner.ErrBlockPruned) {
+			add("events:below-floor-not-reported-pruned", fmt.Sprintf("query from block %d: %v", oldest-1, err))
+		}
+		if _, err := w.scan(bc, oldest-1, th, 100000); !errors.Is(err, pruner.ErrBlockPruned) {
+			add("events:below-floor-not-reported-pruned", fmt.Sprintf("unfiltered query from block %d: %v", oldest-1, err))
+		}
+	}
+}
+
 // evaluate: every monitor of the property on the live node.  wantFloor is the floor the
 // specification says the process serves state from (-1: do not check the lower bound).
+// w.lazyIndex: the specification's running event filter is not initialised yet (a restart without
+// a first use): nothing that would initialise it is asked.
 func (w *world) evaluate(wantFloor int, floorBound bool) []violation {
 	var out []violation
 	add := func(sym, detail string) {
@@ -1054,18 +1372,18 @@ func (w *world) evaluate(wantFloor int, floorBound bool) []violation {
 			add("floor:above-min-l1-head-minus-retained", fmt.Sprintf("oldest retained %d, retained %d, L1 head %d (%v), head %d", oldest, w.c.Retained, l1.BlockNumber, err, th))
 		}
 		if w.c.MinAge {
-			for n := uint64(0); n < oldest; n++ {
+			for n := uint64(w.c.lo()); n < oldest; n++ {
 				if w.young[int(n)] {
 					add("floor:younger-than-min-age", fmt.Sprintf("block %d is younger than the minimum age but was pruned (oldest retained %d)", n, oldest))
 				}
 			}
 		}
 	}
-	for n := uint64(0); n <= th; n++ {
+	for n := uint64(w.c.lo()); n <= th; n++ {
 		w.sweepBlock(bc, store, n, n >= oldest, add)
 	}
 	// state by number: whatever is served must be right; from wantFloor up it must be served
-	for n := uint64(0); n <= th; n++ {
+	for n := uint64(w.c.lo()); n <= th; n++ {
 		st, closer, err := bc.StateAtBlockNumber(n)
 		if err != nil {
 			if wantFloor >= 0 && int(n) >= wantFloor {
@@ -1089,26 +1407,8 @@ func (w *world) evaluate(wantFloor int, floorBound bool) []violation {
 		_ = tcl()
 		_ = closer()
 	}
-	// events: the retained range answers exactly; a range starting below is reported as pruned
-	found, qerr := w.query(bc, oldest, th)
-	if qerr != nil {
-		add("events:error", qerr.Error())
-	} else {
-		want := []bk{}
-		for n := oldest; n <= th; n++ {
-			h, _ := w.twin.BC.BlockHeaderHashByNumber(n)
-			if id := w.byHash[*h]; len(w.built[id].Block.Transactions) > 0 {
-				want = append(want, id)
-			}
-		}
-		if !reflect.DeepEqual(append([]bk{}, found...), want) {
-			add("events:mismatch", fmt.Sprintf("got %v want %v", found, want))
-		}
-	}
-	if oldest > 0 {
-		if _, err := w.query(bc, oldest-1, th); !errors.Is(err, pruner.ErrBlockPruned) {
-			add("events:below-floor-not-reported-pruned", fmt.Sprintf("query from block %d: %v", oldest-1, err))
-		}
+	if !w.lazyIndex {
+		w.eventMonitors(bc, oldest, th, add)
 	}
 	w.checkRetained(add)
 	w.retain()
